@@ -745,6 +745,16 @@ def push (v : VRing α) (x : α) : Option (VRing α) :=
 `r.push(r.head_place())`): nothing is destroyed or constructed, the head moves on -/
 def pushSelf (v : VRing α) : VRing α := { v with t := { v.t with r := ringMoveHeadOne v.t.r } }
 
+/-- `push(obj)` / `emplace(args)` whose constructor THROWS (round 3b, after the repair
+`try { new (place) T(obj); } catch (...) { new (place) T(); throw; }`): `place->~T();` has run,
+the failed construction has produced no object, the handler value-constructs a `T` (`d` = `T()`)
+in the slot and rethrows; `ring_move_head_one` is not reached. -/
+def pushThrow (v : VRing α) (d : α) : Option (VRing α) :=
+  let h := v.t.r.head.toNat
+  match poke v.t.buf h d with
+  | none => none
+  | some b => some { (v.destruct h).construct h with t := { v.t with buf := b } }
+
 /-- `pop`: `buffer[idx].~T(); new (buffer.data() + idx) T(); ring_move_tail_one(&r);` -/
 def pop (v : VRing α) (d : α) : Option (VRing α) :=
   match v.t.pop d with
@@ -805,6 +815,7 @@ inductive VOp (α : Type) where
   | copy
   | move
   | assign (m : Nat)
+  | pushThrow      -- round 3b: a push / emplace whose constructor throws (the caller catches)
 
 def VRing.step {α : Type} (dflt : α) (v : VRing α) : VOp α → Option (VRing α)
   | .push x => v.push x
@@ -815,6 +826,7 @@ def VRing.step {α : Type} (dflt : α) (v : VRing α) : VOp α → Option (VRing
   | .copy => some (v.copyAndDrop dflt)
   | .move => some v.moveAndDrop
   | .assign m => some (v.assignAndDrop dflt m)
+  | .pushThrow => v.pushThrow dflt
 
 def VRing.run {α : Type} (dflt : α) : VRing α → List (VOp α) → Option (VRing α)
   | v, [] => some v
@@ -853,10 +865,118 @@ def fixupLoopT (size : U32) : Nat → U32 → Option U32
   | 0, x => if x ≥ size then none else some x
   | fuel + 1, x => if x ≥ size then fixupLoopT size fuel (x - size) else some x
 
-/-- `size_t write(const T *buf, size_t sz) { return ring_write(&r, buffer.data(), buf, sz); }`
-(and `read` alike): `sz` is converted to the `unsigned int size` parameter of
-`ring_write` — only `sz mod 2^32` elements are offered to the ring. -/
-def TRing.writeC {α : Type} (t : TRing α) (d : List α) : Option (TRing α × Nat) :=
+/-- BEFORE the round-3b repair: `size_t write(const T *buf, size_t sz) { return ring_write(&r,
+buffer.data(), buf, sz); }` (and `read` alike): `sz` is converted to the `unsigned int size`
+parameter of `ring_write` — only `sz mod 2^32` elements are offered to the ring. -/
+def TRing.writeCOrig {α : Type} (t : TRing α) (d : List α) : Option (TRing α × Nat) :=
   (ringWrite t.r t.buf (d.take (d.length % 2 ^ 32))).map fun (r', b', k) => (⟨r', b'⟩, k)
+
+/-- repaired (ab63e64, round 3b) `size_t write(const T *buf, size_t sz) { if (sz > r.size) sz = r.size;
+return ring_write(&r, buffer.data(), buf, sz); }`.  `sz` = the request (any `size_t`), `d` = the
+elements the source really holds (`|d| ≤ sz`; the loop reads `*data++` only while it runs):
+after the clamp `sz ≤ r.size < 2^32`, so the conversion to `unsigned int` changes nothing. -/
+def TRing.writeC {α : Type} (t : TRing α) (d : List α) (sz : Nat) : Option (TRing α × Nat) :=
+  (ringWrite t.r t.buf (d.take (min sz t.r.size.toNat))).map fun (r', b', k) => (⟨r', b'⟩, k)
+
+/-- repaired `size_t read(T *buf, size_t sz) { if (sz > r.size) sz = r.size; return ring_read(&r,
+buffer.data(), buf, sz); }`; before: `ring_read(…, sz mod 2^32)` -/
+def TRing.readC (t : TRing Byte) (sz : Nat) : Option (RingHead × List Byte) :=
+  ringRead t.r t.buf (min sz t.r.size.toNat)
+
+def TRing.readCOrig (t : TRing Byte) (sz : Nat) : Option (RingHead × List Byte) :=
+  ringRead t.r t.buf (sz % 2 ^ 32)
+
+/-! ## round 3b: the two ways the repaired `push` / `emplace` can still leave the
+head slot without a living object -/
+
+namespace VRing
+variable {α : Type}
+
+/-- `emplace(args)` whose argument IS the head slot (`r.emplace(r.head_place())`):
+`place->~T(); new (place) T(*place); ring_move_head_one(&r);` — `emplace` has no
+aliasing test (`push` has): the copy constructor reads the object that has just
+been destroyed.  The bytes are still there: the value of the slot is kept. -/
+def emplaceSelf (v : VRing α) : Option (VRing α) :=
+  let h := v.t.r.head.toNat
+  if h < v.t.buf.length then
+    let w := v.destruct h
+    let w := { w with deadRead := w.deadRead + (if w.live.getD h false then 0 else 1) }
+    some { w.construct h with t := { v.t with r := ringMoveHeadOne v.t.r } }
+  else none
+
+/-- BEFORE the round-3b repair: `push(obj)` whose copy constructor `T(obj)` throws:
+`place->~T();` has run, `new (place) T(obj)` has constructed nothing, the exception leaves
+`push`; `ring_move_head_one` is not reached. -/
+def pushThrowOrig (v : VRing α) : Option (VRing α) :=
+  let h := v.t.r.head.toNat
+  if h < v.t.buf.length then some (v.destruct h) else none
+
+end VRing
+
+/-! ## round 3b: igris/container/unbounded_array.h — the members the containers do
+not use (`fill`, `clear`, `begin`/`end`, `operator=` incl. self-assignment), with
+the same ledger as `VRing` -/
+
+/-- `unbounded_array<T>`: `m_data[0 .. m_size)` as a list (`m_size` = its length),
+`live` = which slots hold a living object, constructor / destructor calls, and the
+forbidden events: destructor on a dead slot, assignment to a dead slot -/
+structure UArr (α : Type) where
+  data : List α
+  live : List Bool
+  ctor : Nat
+  dtor : Nat
+  deadDtor : Nat
+  deadAssign : Nat
+
+namespace UArr
+variable {α : Type}
+
+/-- `unbounded_array(size_t sz)`: `sz` value-initialised elements -/
+def mk' (dflt : α) (sz : Nat) : UArr α :=
+  { data := List.replicate sz dflt, live := List.replicate sz true, ctor := sz, dtor := 0,
+    deadDtor := 0, deadAssign := 0 }
+
+/-- `begin()` / `end()` as element offsets from `m_data`: `m_data`, `m_data + m_size` -/
+def iterBegin (_ : UArr α) : Nat := 0
+def iterEnd (a : UArr α) : Nat := a.data.length
+
+/-- `fill(val)`: `for (auto &ref : *this) ref = val;` — the range-for: an iterator
+runs from `begin()` until it EQUALS `end()`; each step assigns through it (`none` =
+the store is outside the array, or the loop is still running when the fuel is used up) -/
+def fillLoop (val : α) : Nat → Nat → UArr α → Option (UArr α)
+  | 0, it, a => if it = a.iterEnd then some a else none
+  | fuel + 1, it, a =>
+    if it = a.iterEnd then some a
+    else match poke a.data it val with
+      | none => none
+      | some d => fillLoop val fuel (it + 1)
+          { a with data := d, deadAssign := a.deadAssign + (if a.live.getD it false then 0 else 1) }
+
+def fill (a : UArr α) (val : α) : Option (UArr α) := fillLoop val a.data.length a.iterBegin a
+
+/-- `invalidate()`: `~T()` on every slot, `deallocate`, `m_data = nullptr; m_size = 0;` -/
+def invalidate (a : UArr α) : UArr α :=
+  { a with data := [], live := [], dtor := a.dtor + a.live.length,
+           deadDtor := a.deadDtor + LRing.deadCount a.live }
+
+/-- `clear()`: `invalidate();` -/
+def clear (a : UArr α) : UArr α := a.invalidate
+
+/-- `resize(size)`: `invalidate(); create_buffer(size);` -/
+def resize (dflt : α) (a : UArr α) (sz : Nat) : UArr α :=
+  let w := a.invalidate
+  { w with data := List.replicate sz dflt, live := List.replicate sz true, ctor := w.ctor + sz }
+
+/-- `operator=(const unbounded_array &oth)`: `if (this == &oth) return *this; invalidate();
+m_data = alloc.allocate(oth.size()); m_size = oth.size(); copy-construct every element`.
+`src = none`: the argument is `*this`. -/
+def assign (a : UArr α) (src : Option (List α)) : UArr α :=
+  match src with
+  | none => a
+  | some s =>
+    let w := a.invalidate
+    { w with data := s, live := List.replicate s.length true, ctor := w.ctor + s.length }
+
+end UArr
 
 end Igris.C03
